@@ -22,6 +22,7 @@ func (fr *Frame) execCall(st *State, c *ssa.CallCommon, in ssa.Instruction, pos 
 		args = append(args, fr.val(st, a))
 	}
 	sig := c.Signature()
+	fr.countCall(st, calleeName(c), in, pos)
 	if c.IsInvoke() {
 		recv := fr.val(st, c.Value)
 		if _, isMI := c.Value.(*ssa.MakeInterface); !isMI {
@@ -66,9 +67,44 @@ func (fr *Frame) execCall(st *State, c *ssa.CallCommon, in ssa.Instruction, pos 
 	if rs, ok := fr.funcTypeCall(st, c.Value, args, in, pos, sig); ok {
 		return rs
 	}
+	if rs, ok := fr.dynParamCall(st, c.Value, args, in, pos, sig); ok {
+		return rs
+	}
 	u.note("call through unknown function value")
 	u.havocAll(st, "dynamic call")
 	return fr.freshResults(st, sig)
+}
+
+// dynParamCall: a call through a function value obtained from a parameter (directly, or as an element of a slice
+// parameter) for which the root contract has a dyncalls clause.
+func (fr *Frame) dynParamCall(st *State, fv ssa.Value, args []Val, in ssa.Instruction, pos token.Pos, sig *types.Signature) ([]Val, bool) {
+	u := fr.u
+	if fr.parent != nil || u.spec == nil || u.spec.DynCalls == nil {
+		return nil, false
+	}
+	var p *ssa.Parameter
+	switch x := fv.(type) {
+	case *ssa.Parameter:
+		p = x
+	case *ssa.UnOp:
+		if ia, ok := x.X.(*ssa.IndexAddr); ok {
+			p, _ = ia.X.(*ssa.Parameter)
+		}
+	}
+	if p == nil {
+		return nil, false
+	}
+	targets, ok := u.spec.DynCalls[p.Name()]
+	if !ok {
+		return nil, false
+	}
+	u.note("calls through parameter " + p.Name() + " of " + u.spec.Name + " are assumed to modify at most: " + strings.Join(targets, ", "))
+	tmp := &FuncSpec{Name: u.spec.Name + " dyncalls " + p.Name(), HasMod: true, Modifies: targets}
+	old := st.clone()
+	if !fr.applyModifies(st, old, tmp, fr.baseEnv(), fr.fn.Pkg.Pkg, "call through "+p.Name()) {
+		return nil, false
+	}
+	return fr.freshResults(st, sig), true
 }
 
 // funcTypeCall: dynamic call of a value whose static type is a named function type with a functype contract.
@@ -84,24 +120,30 @@ func (fr *Frame) funcTypeCall(st *State, fv ssa.Value, args []Val, in ssa.Instru
 		return nil, false
 	}
 	u.note("function-type contract used (assumed for every value of the type): " + n.Obj().Name())
-	env := map[string]Val{}
+	return fr.applyAnonSpec(st, spec, map[string]Val{}, n.Obj().Pkg(), n.Obj().Name(), args, pos, sig)
+}
+
+// applyAnonSpec applies a contract that is not attached to a function body (function type, function-valued field):
+// parameters are named after the signature (and arg0, arg1, ...).
+func (fr *Frame) applyAnonSpec(st *State, spec *FuncSpec, env map[string]Val, pkg *types.Package, name string, args []Val, pos token.Pos, sig *types.Signature) ([]Val, bool) {
+	u := fr.u
 	for i := 0; i < sig.Params().Len() && i < len(args); i++ {
 		if nm := sig.Params().At(i).Name(); nm != "" {
 			env[nm] = args[i]
 		}
 		env[fmt.Sprintf("arg%d", i)] = args[i]
 	}
-	ctx := &specCtx{fr: fr, cur: st, old: st, env: env, pkg: n.Obj().Pkg()}
+	ctx := &specCtx{fr: fr, cur: st, old: st, env: env, pkg: pkg}
 	for _, cl := range spec.Requires {
 		t, err := u.specBool(cl.Expr, ctx)
 		if err != nil {
 			u.failed = fmt.Sprintf("%s:%d: %v", cl.File, cl.Line, err)
 			return nil, false
 		}
-		u.check(fr, st, "pre", sanitize(n.Obj().Name())+"."+clauseKey(cl), t, "precondition of "+n.Obj().Name()+": "+cl.Text, pos, cl.Props)
+		u.check(fr, st, "pre", sanitize(name)+"."+clauseKey(cl), t, "precondition of "+name+": "+cl.Text, pos, cl.Props)
 	}
 	old := st.clone()
-	if !fr.applyModifies(st, old, spec, env, n.Obj().Pkg(), n.Obj().Name()) {
+	if !fr.applyModifies(st, old, spec, env, pkg, name) {
 		return nil, false
 	}
 	rs := fr.freshResults(st, sig)
@@ -112,7 +154,7 @@ func (fr *Frame) funcTypeCall(st *State, fv ssa.Value, args []Val, in ssa.Instru
 		env[fmt.Sprintf("result%d", i)] = r
 	}
 	for _, cl := range spec.Ensures {
-		t, err := u.specBool(cl.Expr, &specCtx{fr: fr, cur: st, old: old, env: env, pkg: n.Obj().Pkg()})
+		t, err := u.specBool(cl.Expr, &specCtx{fr: fr, cur: st, old: old, env: env, pkg: pkg})
 		if err != nil {
 			u.failed = fmt.Sprintf("%s:%d: %v", cl.File, cl.Line, err)
 			return rs, true
@@ -184,12 +226,35 @@ func (fr *Frame) defaultEffects(st *State, fn *ssa.Function, name string, args [
 	}
 	escapes := false
 	var sliceElems []types.Type
+	isRepoType := func(t types.Type) bool {
+		if n, ok := t.(*types.Named); ok && n.Obj().Pkg() != nil {
+			return strings.HasPrefix(n.Obj().Pkg().Path(), u.eng.module)
+		}
+		return false
+	}
 	for _, a := range args {
 		if a.Ty == nil {
 			continue
 		}
 		switch t := a.Ty.Underlying().(type) {
-		case *types.Pointer, *types.Map, *types.Chan, *types.Signature, *types.Interface:
+		case *types.Pointer:
+			// a pointer to an object of a type declared outside the repository (e.g. *os.File): the callee can only change
+			// that foreign object, which repository code never inspects directly
+			if n, ok := t.Elem().(*types.Named); ok && n.Obj().Pkg() != nil && !isRepoType(t.Elem()) {
+				if _, isStruct := n.Underlying().(*types.Struct); isStruct {
+					continue
+				}
+			}
+			escapes = true
+		case *types.Interface:
+			// a value passed as an interface type declared outside the repository (net.Conn, io.Reader, ...): assumed not to
+			// call back into repository state
+			if n, ok := a.Ty.(*types.Named); ok && n.Obj().Pkg() != nil && !isRepoType(a.Ty) {
+				u.note("value passed to third-party code as " + n.Obj().Pkg().Name() + "." + n.Obj().Name() + " is assumed not to call back into repository state")
+				continue
+			}
+			escapes = true
+		case *types.Map, *types.Chan, *types.Signature:
 			escapes = true
 		case *types.Slice:
 			es := u.sortOf(t.Elem())
@@ -199,11 +264,14 @@ func (fr *Frame) defaultEffects(st *State, fn *ssa.Function, name string, args [
 				escapes = true
 			}
 		case *types.Struct:
+			if isTimeType(a.Ty) {
+				continue
+			}
 			escapes = true
 		}
 	}
 	if escapes {
-		u.havocAll(st, "external call with reference arguments: "+name)
+		u.havocAllX(st, "external call with reference arguments: "+name, true)
 		return
 	}
 	for _, et := range sliceElems {
@@ -484,6 +552,10 @@ func (u *Unit) resolveModifies(spec *FuncSpec, ctx *specCtx) ([]modTarget, error
 		case strings.HasPrefix(t, "$"):
 			srt, ok := u.eng.contracts.Ghosts[t]
 			if !ok {
+				srt = builtinGhostSort(t)
+				ok = srt != ""
+			}
+			if !ok {
 				return nil, fmt.Errorf("%s: unknown ghost %s in modifies", spec.Name, t)
 			}
 			out = append(out, modTarget{heap: t, hsort: srt})
@@ -622,6 +694,19 @@ func (fr *Frame) fieldCall(st *State, fv ssa.Value, args []Val, in ssa.Instructi
 	key := n.Obj().Pkg().Name() + "." + n.Obj().Name() + "." + fieldName
 	fb := u.eng.contracts.Fields[key]
 	if fb == nil {
+		if spec, ok := u.eng.contracts.Funcs["fieldspec."+key]; ok {
+			u.note("function-valued field contract used (assumed for every value stored in the field): " + key)
+			env := map[string]Val{}
+			switch x := fv.(type) {
+			case *ssa.UnOp:
+				if fa, ok := x.X.(*ssa.FieldAddr); ok {
+					env["this"] = fr.val(st, fa.X)
+				}
+			case *ssa.Field:
+				env["this"] = fr.val(st, x.X)
+			}
+			return fr.applyAnonSpec(st, spec, env, n.Obj().Pkg(), key, args, pos, sig)
+		}
 		return nil, false
 	}
 	tfn := u.eng.funcsByShort[fb.Target]
@@ -878,7 +963,16 @@ func (fr *Frame) ifaceModel(st *State, key string, recv Val, args []Val, in ssa.
 		u.note("library model: hash.Hash Write/Sum (digest = uninterpreted function of the bytes written)")
 		return []Val{{r, sig.Results().At(0).Type(), ""}}, true
 	case "(github.com/echovault/sugardb/internal/clock.Clock).Now":
-		u.note("library model: clock.Now returns the ghost clock $now")
+		if u.spec != nil && u.spec.Flags["clockadvances"] && fr.parent == nil {
+			// every reading may be later than the previous one
+			prev := u.hget(st, "$now", sInt)
+			n := u.fresh("now", sInt)
+			u.assume(st, sx(">=", n, prev))
+			u.hset(st, "$now", sInt, n)
+			u.note("library model: clock.Now returns a non-decreasing ghost clock (flag clockadvances)")
+			return []Val{{n, sig.Results().At(0).Type(), ""}}, true
+		}
+		u.note("library model: clock.Now returns the ghost clock $now (constant during one call)")
 		return []Val{{u.hget(st, "$now", sInt), sig.Results().At(0).Type(), ""}}, true
 	}
 	// contract on an interface method, e.g. "//@ func (CompositeType).GetMem" in the package declaring the interface
@@ -890,7 +984,10 @@ func (fr *Frame) ifaceModel(st *State, key string, recv Val, args []Val, in ssa.
 				env := map[string]Val{"this": recv}
 				msig := call.Common().Method.Type().(*types.Signature)
 				for i := 0; i < msig.Params().Len() && i < len(args); i++ {
-					env[msig.Params().At(i).Name()] = args[i]
+					if nm := msig.Params().At(i).Name(); nm != "" {
+						env[nm] = args[i]
+					}
+					env[fmt.Sprintf("arg%d", i)] = args[i]
 				}
 				ctx := &specCtx{fr: fr, cur: st, old: st, env: env, pkg: n.Obj().Pkg()}
 				for _, cl := range spec.Requires {
@@ -1696,4 +1793,27 @@ func initAtomicModels() {
 	models["(*sync/atomic.Uint64).Load"] = load(tu64, false)
 	models["(*sync/atomic.Uint64).Store"] = storeM(false)
 	models["(*sync/atomic.Uint64).Add"] = add(tu64)
+}
+
+// calleeName: the name contracts use to refer to a call site: the function or method name, or the field name for a call
+// through a function-valued struct field.
+func calleeName(c *ssa.CallCommon) string {
+	if c.IsInvoke() {
+		return c.Method.Name()
+	}
+	switch v := c.Value.(type) {
+	case *ssa.Function:
+		return v.Name()
+	case *ssa.Builtin:
+		return ""
+	case *ssa.MakeClosure:
+		return v.Fn.Name()
+	case *ssa.Field:
+		return v.X.Type().Underlying().(*types.Struct).Field(v.Field).Name()
+	case *ssa.UnOp:
+		if fa, ok := v.X.(*ssa.FieldAddr); ok {
+			return fa.X.Type().Underlying().(*types.Pointer).Elem().Underlying().(*types.Struct).Field(fa.Field).Name()
+		}
+	}
+	return ""
 }
